@@ -68,6 +68,8 @@ def place(rng, files, root, ndirs):
         p = os.path.join(root, d, name)
         if content is None:
             os.makedirs(p)
+        elif isinstance(content, tuple):
+            os.symlink(content[1], p)          # ("symlink", target): e.g. a dangling link named like a unit
         else:
             with open(p, "wb") as f:
                 f.write(content.encode() if isinstance(content, str) else content)
@@ -78,8 +80,8 @@ def place(rng, files, root, ndirs):
 
 def run(ctx):
     ctx.rule = ("a base set S of 2-6 valid units of all types (with references inside S) and an extra set E of 1-5 files (valid units, and broken ones: syntax error, no section, unknown key, "
-                "missing image, dangling reference, bad escape, invalid UTF-8, bad value, a directory named like a unit), names disjoint, nothing in S referring to E and no valid container of E naming a pod of S (failing ones may); "
-                "also runs in which every file fails to load or to convert; S alone and S+E each placed over 1-3 search directories with nested subdirectories in random creation order; compared service by service; non-trivial = E contains at least one broken file; "
+                "missing image, dangling reference, bad escape, invalid UTF-8, bad value, a directory named like a unit, a dangling symbolic link named like a unit), names disjoint, nothing in S referring to E and no valid container of E naming a pod of S (failing ones may); "
+                "also runs in which every file fails to load or to convert, and runs with 256 / 512 failing files (the exit status must not wrap); S alone and S+E each placed over 1-3 search directories with nested subdirectories in random creation order; compared service by service; non-trivial = E contains at least one broken file; "
                 "distinct = distinct (S, E)")
     rng = ctx.rng
     n = ctx.volume(60, 800)
@@ -110,8 +112,11 @@ def run(ctx):
                 elif r < 0.92:
                     kind = rng.choice(list(BROKEN))
                     E["x%d.container" % j] = BROKEN[kind]; broken.append("x%d.container" % j)
-                else:
+                elif r < 0.96:
                     E["dir%d.container" % j] = None; broken.append("dir%d.container" % j)
+                else:
+                    # an unreadable unit file: a symbolic link to nothing (or to itself)
+                    E["gone%d.container" % j] = ("symlink", rng.choice(["/nonexistent/target.container", "nowhere.container", "gone%d.container" % j])); broken.append("gone%d.container" % j)
             if "pd.pod" in S and rng.random() < 0.5:
                 # a file that names a pod of the base set but fails conversion (at the first check, or after every handler has run): the pod does not reference it
                 kind = rng.choice(["Rootfs=/also\n", "Volume=ghost.volume:/data\n", "ExposeHostPort=http\n", "Group=g\n", "Network=ghost.network\n", "PodmanArgs=\\q\n", "[Service]\nType=forking\n"])
@@ -149,7 +154,19 @@ def run(ctx):
                         if not any(b in l and "ERROR" in l for l in errt.split("\n")):
                             bad = "no error line naming %s" % b
             if bad:
-                ctx.failures.append({"op": "e2e", "base": sorted(S), "extra": {k: (show(v) if v is not None else "<directory>") for k, v in E.items()}, "what": bad, "class": None})
+                ctx.failures.append({"op": "e2e", "base": sorted(S), "extra": {k: (show(v) if isinstance(v, (str, bytes)) else ("<directory>" if v is None else "<symlink to %s>" % v[1])) for k, v in E.items()}, "what": bad, "class": None})
+        # many failures at once: the exit status is a yes/no answer, not a count (256 failing files must not wrap to 0)
+        for nbad, kind in ((256, "unknown_key"), (512, "syntax")):
+            root = box.path("many_%d" % nbad)
+            files = {"ok.container": "[Container]\nImage=img\n"}
+            for j in range(nbad):
+                files["u/b%03d.container" % j] = BROKEN[kind] if kind in BROKEN else "[Container]\nNoSuchKey=1\nImage=img\n"
+            e2e.make_tree(root, {("u/" + k if not k.startswith("u/") else k): v for k, v in files.items()})
+            rc, out, err = e2e.run_quadlet([os.path.join(root, "u")], os.path.join(root, "out"), dry_run=True, timeout=120)
+            ctx.evaluations += 1
+            ctx.count("many_failures=%d" % nbad)
+            if rc == 0 or rc in (101, 134, "timeout"):
+                ctx.failures.append({"op": "e2e", "base": ["ok.container"], "extra": {"%d files" % nbad: kind}, "what": "exit status %s with %d failing files" % (rc, nbad), "class": None})
         # references across search directories: the referring file discovered before / after the file it refers to
         import e2e_refs
         for b in e2e_refs.failures(e2e_refs.run(box, "c10")):
@@ -172,7 +189,7 @@ def run(ctx):
             ctx.nontrivial.add(str(sorted((k, str(v)) for k, v in files.items())))
             ctx.count("only_broken_files=%d" % len(files))
             bad = None
-            if rc != 1:
+            if rc == 0 or rc in (101, 134, "timeout"):
                 bad = "exit status %s although every file fails (%s)" % (rc, kinds)
             else:
                 for name in files:
